@@ -111,16 +111,16 @@ CallNext(h, o, x) ==
          [] hd.k = "tosbj" -> SubjNext(h, hd.a, x)
          [] OTHER -> OnNext(h, o, hd, x)
 CallError(h, o, x) ==
-  IF h.stuck # "" \/ ~h.obs[o].e THEN h
-  ELSE LET h1 == [h EXCEPT !.obs[o].e = FALSE]
+  IF h.stuck # "" THEN h ELSE IF ~h.obs[o].e THEN [h EXCEPT !.obs[o].n = FALSE, !.obs[o].c = FALSE]
+  ELSE LET h1 == [h EXCEPT !.obs[o].n = FALSE, !.obs[o].c = FALSE, !.obs[o].e = FALSE]     \* error(): clear next and complete, take the error slot
            hd == h.obs[o].hd IN
        CASE hd.k = "sink" -> Emit(h1, Ev("cb", hd.a, "e", x))
          [] hd.k = "fwd" -> CallError(h1, hd.a, x)
          [] hd.k = "tosbj" -> SubjError(h1, hd.a, x)
          [] OTHER -> OnError(h1, o, hd, x)
 CallComplete(h, o) ==
-  IF h.stuck # "" \/ ~h.obs[o].c THEN h
-  ELSE LET h1 == [h EXCEPT !.obs[o].c = FALSE]
+  IF h.stuck # "" THEN h ELSE IF ~h.obs[o].c THEN [h EXCEPT !.obs[o].n = FALSE, !.obs[o].e = FALSE]
+  ELSE LET h1 == [h EXCEPT !.obs[o].n = FALSE, !.obs[o].e = FALSE, !.obs[o].c = FALSE]     \* complete(): clear next and error, take the complete slot
            hd == h.obs[o].hd IN
        CASE hd.k = "sink" -> Emit(h1, Ev("cb", hd.a, "c", 0))
          [] hd.k = "fwd" -> CallComplete(h1, hd.a)
@@ -149,8 +149,11 @@ SinkError(h, c, x) == IF h.stuck # "" THEN h ELSE IF IsSub(h, h.ctl[c].sub) THEN
 SinkComplete(h, c, serial) ==
   IF h.stuck # "" THEN h ELSE
   IF IsSub(h, h.ctl[c].sub)
-  THEN LET h1 == [Touch(h, Lk("ups", c), "W") EXCEPT !.ctl[c].ups = SelectSeq(@, LAMBDA p : p.s # serial)]
-       IN IF h1.stuck # "" THEN h1 ELSE IF h1.ctl[c].ups = <<>> THEN Finalize(CallComplete(h1, h1.ctl[c].sub), c) ELSE h1
+  THEN LET hit == SelectSeq(h.ctl[c].ups, LAMBDA p : p.s = serial)
+           h1 == [Touch(h, Lk("ups", c), "W") EXCEPT !.ctl[c].ups = SelectSeq(@, LAMBDA p : p.s # serial)]
+           done == h1.ctl[c].ups = <<>>                      \* decided under the lock, before the completed input is unsubscribed
+           h2 == IF h1.stuck # "" \/ hit = <<>> THEN h1 ELSE Unsub(h1, hit[1].o)      \* (outside the lock)
+       IN IF h2.stuck # "" THEN h2 ELSE IF done THEN Finalize(CallComplete(h2, h2.ctl[c].sub), c) ELSE h2
   ELSE Finalize(h, c)
 SinkCompleteForce(h, c) ==
   IF h.stuck # "" THEN h ELSE Finalize(IF IsSub(h, h.ctl[c].sub) THEN CallComplete(h, h.ctl[c].sub) ELSE h, c)
